@@ -3,7 +3,7 @@
 id=$1; shift
 props="$@"; [ -z "$props" ] && props=$id
 cd /verif
-git -C /repo apply seeded/$id/patch.diff || { echo "patch does not apply"; exit 2; }
+git -C /repo apply /verif/seeded/$id/patch.diff || { echo "patch does not apply"; exit 2; }
 for p in $props; do
   echo "--- seed $id / check $p"
   ./check $p --tier quick 2>&1 | grep -v conda | grep -E "VIOLATION|KNOWN|OK property|^#" | cut -c1-400
